@@ -8,7 +8,7 @@ use std::fmt::Display;
 use structmeta::StructMeta;
 use syn::{
     parse2, parse_quote, spanned::Spanned, Error, GenericArgument, Ident, ImplItem, ItemImpl, Path,
-    PathArguments, PathSegment, Result, Type,
+    PathArguments, PathSegment, Result, Type, TypeGroup, TypeParen,
 };
 
 #[derive(StructMeta, Debug)]
@@ -244,7 +244,12 @@ fn find_output_type(item_impl: &ItemImpl) -> Result<&Type> {
     bail!(_, "cannot find associate type `Output`");
 }
 fn to_ref_elem(ty: &Type) -> (Type, bool) {
-    if let Type::Reference(tr) = ty {
+    // `(&T)`, and `&T` handed in through a `macro_rules!` fragment (an invisible group), are references too
+    let mut inner = ty;
+    while let Type::Group(TypeGroup { elem, .. }) | Type::Paren(TypeParen { elem, .. }) = inner {
+        inner = elem;
+    }
+    if let Type::Reference(tr) = inner {
         if tr.lifetime.is_none() && tr.mutability.is_none() {
             return (tr.elem.as_ref().clone(), true);
         }
